@@ -31,7 +31,10 @@ const (
 	sB  = uint32(303986753)
 )
 
-var classes = []string{"valid-A", "valid-B", "duplicate-A", "len-63", "len-65", "len-1100", "wrong-protocol", "wrong-function", "non-bcd-date", "calendar-invalid-date"}
+var classes = []string{"valid-A", "valid-B", "duplicate-A", "len-63", "len-65", "len-1100", "len-6", "wrong-protocol", "wrong-function", "function-ff", "non-bcd-date", "calendar-invalid-date"}
+
+// debugClient: the client of the scenario is built with debug = true (set by the scenario body)
+var debugClient = false
 var times = []time.Duration{T / 10, T / 2, T - eps, T, T + eps}
 
 var devOp = spec.OpByName("GetDevices")
@@ -53,6 +56,10 @@ func reply(class string, k int) []byte {
 	switch class {
 	case "len-63":
 		d = d[:63]
+	case "len-6":
+		d = d[:6]
+	case "function-ff":
+		d[1] = 0xff
 	case "len-65": // a well-formed reply followed by one more byte: too long, whatever its first 64 bytes say
 		d = append(d, 0x00)
 	case "len-1100":
@@ -77,6 +84,10 @@ type arrival struct {
 }
 
 func scenario(name string, n int, fixedTimes []time.Duration, bcastPort uint16, bound int) e1.Scenario {
+	return scenarioD(name, n, fixedTimes, bcastPort, bound, false)
+}
+
+func scenarioD(name string, n int, fixedTimes []time.Duration, bcastPort uint16, bound int, debug bool) e1.Scenario {
 	var arrivals []arrival
 	var got []map[string]any
 	var gotErr error
@@ -107,7 +118,7 @@ func scenario(name string, n int, fixedTimes []time.Duration, bcastPort uint16, 
 			bcast = types.BroadcastAddrFrom(netip.MustParseAddr("192.168.1.255"), bcastPort)
 		}
 		devices := []uhppote.Device{{Name: "Bravo", DeviceID: sB, Address: types.ControllerAddrFrom(netip.MustParseAddr("192.168.1.101"), 60000), Protocol: "udp"}}
-		u := uhppote.NewUHPPOTE(types.BindAddr{}, bcast, types.ListenAddr{}, T, devices, false)
+		u := uhppote.NewUHPPOTE(types.BindAddr{}, bcast, types.ListenAddr{}, T, devices, debug)
 		got, gotErr = ops.InvokeGetDevices(u)
 	}
 	check := func(e *vs.Exec) (string, []e1.Viol) {
@@ -295,6 +306,7 @@ func main() {
 		for n := 0; n <= 2; n++ {
 			scenarios = append(scenarios, scenario(fmt.Sprintf("discovery/n=%d/any-time/bcast=%d", n, port), n, nil, port, 2))
 		}
+		scenarios = append(scenarios, scenarioD(fmt.Sprintf("discovery/n=2/times=0.1T,0.5T/bcast=%d/debug-client", port), 2, []time.Duration{T / 10, T / 2}, port, 1, true))
 		scenarios = append(scenarios, scenario(fmt.Sprintf("discovery/n=3/times=0.1T,0.5T,T-e/bcast=%d", port), 3, []time.Duration{T / 10, T / 2, T - eps}, port, 2))
 		scenarios = append(scenarios, scenario(fmt.Sprintf("discovery/n=3/times=T-e,0.5T,T+e/bcast=%d", port), 3, []time.Duration{T - eps, T / 2, T + eps}, port, 1))
 		if r.Thorough() {
@@ -314,7 +326,7 @@ func main() {
 	if r.Worker == "" && r.Replay == "" {
 		vs.Run(nil, nil, vs.Options{}, func() { mappingSweep(r) })
 	}
-	r.Rule("every sequence of 0..2 datagrams over 10 classes (valid A/B, duplicate, 63 bytes, 65 and 1100 bytes with a well-formed 64-byte prefix, wrong protocol id, wrong function code, non-BCD and calendar-invalid date) x 5 arrival times (0.1T, 0.5T, T-e, T, T+e), every 3-datagram class sequence at two fixed time patterns (thorough: also every 3-datagram sequence at every arrival-time combination, simultaneous arrivals and 4 datagrams at two time patterns), broadcast address unset / port 60005, each under all interleavings of the reader goroutine and the sleeping caller within the preemption bound; plus a driver-level sweep of one reply through the result mapping (every byte value of address/mask/gateway/MAC/version/serial, all 65536 version, year and month-day byte pairs) x {unnamed + default port, named + port 60005}. distinct = distinct (entries, datagrams) labels")
+	r.Rule("every sequence of 0..2 datagrams over 12 classes (valid A/B, duplicate, 6 and 63 bytes, 65 and 1100 bytes with a well-formed 64-byte prefix, wrong protocol id, wrong function code, function code 0xff, non-BCD and calendar-invalid date), every 2-datagram sequence also through a client built with debug = true, x 5 arrival times (0.1T, 0.5T, T-e, T, T+e), every 3-datagram class sequence at two fixed time patterns (thorough: also every 3-datagram sequence at every arrival-time combination, simultaneous arrivals and 4 datagrams at two time patterns), broadcast address unset / port 60005, each under all interleavings of the reader goroutine and the sleeping caller within the preemption bound; plus a driver-level sweep of one reply through the result mapping (every byte value of address/mask/gateway/MAC/version/serial, all 65536 version, year and month-day byte pairs) x {unnamed + default port, named + port 60005}. distinct = distinct (entries, datagrams) labels")
 	r.Assume("a reply with a calendar-invalid BCD date may be dropped or reported with the zero date (the property lists only non-BCD dates as malformed)")
 	r.Finish()
 }
